@@ -6,13 +6,57 @@ import os
 VERIF = os.path.dirname(os.path.dirname(os.path.abspath(__file__)))
 
 # id -> (engine, category, technique, level text, level note, design ref)
+E1NOTE = 'Trusted: CPython determinism under pinned TZ/hash seed/virtual clock; the reference model and query evaluator (tfmc/refmodel.py, tfmc/qast.py); claims are for the explored alphabets and bounds (N stored points, depth D, reported closure) only.'
+E3NOTE = 'Trusted: CPython determinism; the reference function in the check module; the claim is for the enumerated finite universe only (no extrapolation to all strings/floats/terms).'
+
 CHECKS = {
     "C01": (
         "histmc", "model_checking",
         "explicit-state BFS over operation histories on the real TinyFlux objects, canonical-state de-duplication, reference-model oracle at every state",
         "All histories over a colliding operation alphabet (<=N stored points, depth<=D, run to closure where reachable) on {CSV,memory}x{auto_index on,off}; at every distinct state every query of a 200+/800+ term vocabulary x measurement filter is answered by search/count/contains/get/select on the real object and compared with an independent reference evaluation over the state's own contents.",
-        "Trusted: CPython determinism under pinned TZ/hash seed/virtual clock; the reference model and query evaluator (tfmc/refmodel.py, tfmc/qast.py); claims are for the explored alphabets and bounds only.",
-        "4/C01",
+        E1NOTE, "4/C01",
+    ),
+    "C02": (
+        "histmc", "model_checking",
+        "explicit-state BFS over histories; at every state every removal selector x filter x call form executed as a probe transition on a fresh replica and compared with the reference model",
+        "At every reachable state (BFS as C01) every removal selector (atoms, negations, compounds) x measurement filter x {db.remove, handle.remove, drop_measurement, handle.remove_all, remove_all} is executed on the real object; returned count and surviving contents (order, values) are compared with the reference; states after a removal get the read and getter batteries.",
+        E1NOTE, "4/C02",
+    ),
+    "C03": (
+        "histmc", "model_checking",
+        "explicit-state BFS over histories; every update form x selector x scope executed as a probe transition on a fresh replica, contents compared position by position with the reference model",
+        "At every reachable state every update form (static and callable; time/measurement/tags/fields/unset_*/combinations) x 13+ selectors x measurement scope, update_all and handle variants run on the real object; stored contents afterwards are compared position by position and the return value with the number of changed points.",
+        E1NOTE, "4/C03",
+    ),
+    "C05": (
+        "univ", "exploration",
+        "bounded-exhaustive enumeration of a structured point universe through the real CSV write/read path",
+        "Exhaustive (exhaustive:true) enumeration of string atoms in every slot singly and jointly, point shapes, numeric edge values incl. every float64 exponent, timestamp edges, both prefix styles, three csv dialects; each point written by TinyFlux.insert to a real file and read back by a fresh TinyFlux. Not claimed: strings outside the atom closure.",
+        E3NOTE, "4/C05",
+    ),
+    "C09": (
+        "univ", "model_checking",
+        "breadth-first closure of the query term algebra under the real constructors ~ & |, every term evaluated on every point of a finite universe against an independent evaluator",
+        "Every term up to depth 1 over all atoms, depth 2 over 6/10 representatives, depth 3 over 3 representatives (thorough) is built by real constructor calls and evaluated on all 378 universe points; value must equal the reference evaluator's, be a bool, and no exception may escape.",
+        E3NOTE, "4/C09",
+    ),
+    "C14": (
+        "univ", "exploration",
+        "exhaustive matrix entry point x slot x wrong value x static/callable x selector x configuration x pre-state on the real API",
+        "Complete matrix (exhaustive:true) of API entry points x slots x wrongly-typed values, static and via callables, on 4 configurations and pre-state sizes 0-3 (index-assisted and scan branch): must raise ValueError/TypeError, leave contents unchanged, and all() (also of a reopened CSV copy) must return well-typed values only.",
+        E3NOTE, "4/C14",
+    ),
+    "C17": (
+        "univ", "model_checking",
+        "exhaustive enumeration of all ordered pairs of query terms of a closure of the term algebra; equality implies equal hash and equal truth vector",
+        "All ordered pairs of depth<=1 terms over a confusable vocabulary (24/60 atoms) and depth<=2 terms over 2/4 representatives: q1==q2 implies equal hash and identical evaluation on 378 points; commutativity of & and | for all ordered operand pairs (simple or compound); map-queries equal to nothing.",
+        E3NOTE, "4/C17",
+    ),
+    "C18": (
+        "univ", "exploration",
+        "exhaustive enumeration of all sorted lists up to length 7/8 over 5-value domains x probes x helpers against linear-scan definitions",
+        "Exactly the property's quantifier: all 792 (x3 domains) sorted multisets of length 0-7 x 11 probes x 5 helpers (exhaustive:true), plus float domains one ulp apart and at -inf/-0.0/subnormal/inf.",
+        E3NOTE, "4/C18",
     ),
 }
 
